@@ -33,7 +33,7 @@ def loop_plan(prop):
             if prop in ("C08", "C09"):
                 ctx.mc_replay("nest5", "MC_Loop.tla", "MC_Loop_hist.cfg", "fam_nest.json", props, variants=1, consts={"MaxLen": 5})
                 ctx.mc_replay("nestw7", "MC_Loop.tla", "MC_Loop_hist.cfg", "fam_nestw.json", props, variants=1, consts={"MaxLen": 7})
-                ctx.mc_replay("nestf9", "MC_Loop.tla", "MC_Loop_hist.cfg", "fam_nestf.json", props, variants=1, consts={"MaxLen": 9})
+                ctx.mc_replay("nestf8", "MC_Loop.tla", "MC_Loop_hist.cfg", "fam_nestf.json", props, variants=1, consts={"MaxLen": 8})
             ctx.mc_replay("nestx6", "MC_Loop.tla", "MC_Loop_hist.cfg", "fam_nestx.json", props, variants=1, consts={"MaxLen": 6})
             ctx.mc_replay("nesty6", "MC_Loop.tla", "MC_Loop_hist.cfg", "fam_nesty.json", props, variants=1, consts={"MaxLen": 6})
             extend_sweeps(ctx, prop)
@@ -47,7 +47,7 @@ def loop_plan(prop):
             if prop in ("C08", "C09"):
                 ctx.mc_replay("nest7", "MC_Loop.tla", "MC_Loop_hist.cfg", "fam_nest.json", props, variants=1, consts={"MaxLen": 7}, timeout=3000)
                 ctx.mc_replay("nestw8", "MC_Loop.tla", "MC_Loop_hist.cfg", "fam_nestw.json", props, variants=1, consts={"MaxLen": 8}, timeout=3000)
-                ctx.mc_replay("nestf11", "MC_Loop.tla", "MC_Loop_hist.cfg", "fam_nestf.json", props, variants=1, consts={"MaxLen": 11}, timeout=3000)
+                ctx.mc_replay("nestf9", "MC_Loop.tla", "MC_Loop_hist.cfg", "fam_nestf.json", props, variants=1, consts={"MaxLen": 9}, timeout=3000)
             ctx.mc_replay("nestx7", "MC_Loop.tla", "MC_Loop_hist.cfg", "fam_nestx.json", props, variants=1, consts={"MaxLen": 7}, timeout=3000)
             ctx.mc_replay("nesty8", "MC_Loop.tla", "MC_Loop_hist.cfg", "fam_nesty.json", props, variants=1, consts={"MaxLen": 8}, timeout=3000)
             extend_sweeps(ctx, prop)
